@@ -139,8 +139,7 @@ impl<L: Language> Matcher<L> for Has<L> {
             if nd.matches(matcher) {
               None
             } else {
-              nd.children()
-                .find_map(|n| self.inner.match_node_with_env(n, env))
+              self.match_until_stop(nd, matcher, env)
             }
           })
         }
@@ -154,19 +153,29 @@ impl<L: Language> Matcher<L> for Has<L> {
         .dfs()
         .skip(1)
         .find_map(|n| self.inner.match_node_with_env(n, env)),
-      StopBy::Rule(matcher) => {
-        // TODO: use Pre traversal to reduce stack allocation
-        node.children().find_map(|n| {
-          self.inner.match_node_with_env(n.clone(), env).or_else(|| {
-            if n.matches(matcher) {
-              None
-            } else {
-              self.match_node_with_env(n, env)
-            }
-          })
-        })
-      }
+      StopBy::Rule(matcher) => self.match_until_stop(node, matcher, env),
     }
+  }
+}
+
+impl<L: Language> Has<L> {
+  /// search all descendants of `node`, without descending into nodes matching `stop`
+  fn match_until_stop<'tree, D: Doc<Lang = L>>(
+    &self,
+    node: Node<'tree, D>,
+    stop: &Rule<L>,
+    env: &mut Cow<MetaVarEnv<'tree, D>>,
+  ) -> Option<Node<'tree, D>> {
+    // TODO: use Pre traversal to reduce stack allocation
+    node.children().find_map(|n| {
+      self.inner.match_node_with_env(n.clone(), env).or_else(|| {
+        if n.matches(stop) {
+          None
+        } else {
+          self.match_until_stop(n, stop, env)
+        }
+      })
+    })
   }
 }
 
